@@ -1067,6 +1067,61 @@ fn high_address_bits() {
     out::eval(n_ops);
 }
 
+/// Zero-sized element types with element COUNTS up to usize::MAX (only slices of zero-sized
+/// elements can be that long): "the requested amount cut off at the end of the container" never
+/// cuts them off at slice level; an explicit array of n elements cuts at n. Runs in a forked child
+/// with a CPU limit (an implementation that walks the buffer would not finish).
+#[cfg(not(miri))]
+fn zero_sized_element_counts() {
+    use crate::common::fork::{self, Exit};
+    let ex = fork::run(10, || {
+        let a = Cont::arena(64, Place::C(3));
+        let s = a.slice();
+        let mut report = String::new();
+        let big = [0usize, 1, 5, (isize::MAX as usize) - 1, isize::MAX as usize, (isize::MAX as usize) + 1, usize::MAX - 1, usize::MAX];
+        macro_rules! zst {
+            ($T:ty, $tn:expr) => {
+                for &n in &big {
+                    let mut buf: Vec<$T> = vec![<$T>::default(); n];
+                    for (sn, sub) in [("whole", s.subslice(0, 64).unwrap()), ("empty", s.subslice(7, 0).unwrap()), ("one-byte", s.subslice(63, 1).unwrap())] {
+                        let got = sub.copy_to(&mut buf[..]);
+                        if got != n {
+                            report.push_str(&format!("slice({}).copy_to::<{}> of {} elements reported {}; ", sn, $tn, n, got));
+                        }
+                        sub.copy_from(&buf[..]);
+                    }
+                    for &cnt in &[0usize, 3, 70] {
+                        if let Ok(arr) = s.get_array_ref::<$T>(5, cnt) {
+                            let got = arr.copy_to(&mut buf[..]);
+                            if got != n.min(cnt) {
+                                report.push_str(&format!("array[{}].copy_to::<{}> of {} elements reported {}; ", cnt, $tn, n, got));
+                            }
+                            arr.copy_from(&buf[..]);
+                        }
+                    }
+                }
+            };
+        }
+        zst!([u8; 0], "[u8;0]");
+        zst!([u64; 0], "[u64;0]");
+        zst!([u128; 0], "[u128;0]");
+        if a.frame_broken().is_some() {
+            report.push_str("bytes of the container or around it changed; ");
+        }
+        report.into_bytes()
+    });
+    match ex {
+        Exit::Ok(rep) if rep.is_empty() => {
+            out::key("zero-sized-elements|counts-up-to-usize-max", true);
+            out::eval(3 * 8 * 6);
+        }
+        Exit::Ok(rep) => v("zero-sized-elements/reported-count-differs", J::s(String::from_utf8_lossy(&rep).chars().take(600).collect::<String>())),
+        Exit::CpuLimit => v("zero-sized-elements/copy-does-not-finish", J::Null),
+        Exit::Panic(p) => v(&format!("zero-sized-elements/panic/{}", panic_sig(&p)), J::s(p)),
+        other => out::note("C04/zero-sized-child-inconclusive", J::dbg(&other)),
+    }
+}
+
 fn almost_zero_transfers(shard: (u64, u64)) {
     let a = Cont::arena(3 * 4096 + 64, Place::C(0));
     let s = a.slice();
@@ -1238,6 +1293,12 @@ pub fn run(args: &Args) {
         }
         if let Err(p) = guarded(|| big_transfers(args.shard())) {
             v(&format!("panic/big/{}", panic_sig(&p)), J::s(p));
+        }
+    }
+    #[cfg(not(miri))]
+    if si == 2 % args.shard().1 && !args.flag("nobig") {
+        if let Err(p) = guarded(zero_sized_element_counts) {
+            v(&format!("panic/zero-sized/{}", panic_sig(&p)), J::s(p));
         }
     }
     #[cfg(not(miri))]
